@@ -217,6 +217,41 @@ def run(facts, tr, rep):
                 rep.ob("C12.PARALLEL-BOUND", skey(hb, "for-range#%d" % (nloops - 1)), ok_lo and ok_hi and ok_once, g.where(i, j),
                        "parallel mode spawns once per iteration of 1..max_hedged_attempts: max-1 hedges besides the primary" if ok_lo and ok_hi and ok_once else
                        "parallel-mode loop: lower bound %s, upper bound %s, spawns per iteration %s" % (show(lo), show(hi), len(in_loop)))
+    # ... or written as a counting loop: `while spawned + 1 < max { spawned += 1; spawn(..) }` with no suspension inside
+    if nloops == 0:
+        aw_blocks = {a.into_bb for a in g.awaits() if a.into_bb is not None}
+        for sp in spawns:
+            if sp.target is None:
+                continue
+            cyc = {x for x in g.reach([sp.target], kinds=(N,)) if sp.bb in g.reach([x], kinds=(N,))}
+            if not cyc or sp.bb not in cyc or (cyc & aw_blocks):
+                continue
+            guard_ok = inc_ok = False
+            for e in dominating_edges(tr, hb, sp.bb):
+                if e["kind"] != "bool" or e["bb"] not in cyc:
+                    continue
+                cm = cmp_on_edge(tr, dict(e, node=peel(tr.expand(e["node"], upvars=True, params=True))))
+                if cm and mentions_field(tr, cm[1], "max_hedged_attempts") and not mentions_field(tr, cm[2], "max_hedged_attempts"):
+                    cm = ({"Le": "Ge", "Lt": "Gt", "Ge": "Le", "Gt": "Lt"}.get(cm[0], cm[0]), cm[2], cm[1])
+                if cm and cm[0] == "Lt" and mentions_field(tr, cm[2], "max_hedged_attempts"):
+                    n1 = peel(cm[1])
+                    if n1[0] == "field":
+                        n1 = peel(n1[1])
+                    guard_ok = guard_ok or (n1[0] == "binop" and n1[1].startswith("Add") and peel(n1[3])[0] == "const" and peel(n1[3])[3] == "1")
+            for i, blk in enumerate(hb.blocks):
+                if i not in cyc or not g.node_dominates(i, sp.bb):
+                    continue
+                for j, s_ in enumerate(blk["stmts"]):
+                    if s_["k"] == "assign" and hb.locals[s_["lhs"]["l"]].get("user"):
+                        v = peel(tr.stmt_value(hb, i, j))
+                        if v[0] == "field" and peel(v[1])[0] == "binop":
+                            v = peel(v[1])
+                        if v[0] == "binop" and v[1].startswith("Add") and peel(v[3])[0] == "const" and peel(v[3])[3] == "1":
+                            inc_ok = True
+            nloops += 1
+            rep.ob("C12.PARALLEL-BOUND", skey(hb, "count-loop#%d" % (nloops - 1)), guard_ok and inc_ok, sp.where(),
+                   "parallel mode spawns while spawned + 1 < max_hedged_attempts, counting each spawn: max-1 hedges besides the primary" if guard_ok and inc_ok else
+                   "the parallel-mode loop is not bounded by `spawned + 1 < max_hedged_attempts` with one increment per spawn")
     rep.floor("C12.parallel-loops", nloops, 1)
     # ------------------------------------------------------------ LATENCY-COUNT
     # counter = the local incremented by 1 right before a spawn outside the for loop
@@ -380,22 +415,38 @@ def run(facts, tr, rep):
                 payload = peel(tr.expand(tr.operand(hb, cc.args[0], cc.loc)))
         if payload is None:
             continue
-        srcs = [a for a in recv_awaits if derives(tr, payload, await_node(hb, a), variants=None)]
-        # values received inside the select! arrive through its poll_fn future
-        sel = [a for a in g.awaits() if a.poll_bb is not None and "poll_fn" in a.fut_ty["s"] and derives(tr, payload, await_node(hb, a), variants=None)]
-        if not srcs and not sel:
+        # the returned response may have been received at one of several places (`break Some(response)` from two arms of the
+        # race, returned once after the loop): every origin is a received result, and from each the way to the return is free
+        # of suspension points
+        cand_aw = list(recv_awaits) + [a for a in g.awaits() if a.poll_bb is not None and "poll_fn" in a.fut_ty["s"]]
+        lvs = [peel(x) for x in leaves(payload)]
+        per_leaf = []
+        for lf in lvs:
+            s_ = [a for a in cand_aw if derives(tr, lf, await_node(hb, a), variants=None)]
+            per_leaf.append((lf, s_))
+        if not any(s_ for (_lf, s_) in per_leaf):
             continue
         nok += 1
-        src = (srcs + sel)[0]
-        V = await_node(hb, src)
-        ys = None
-        for e in dominating_edges(tr, hb, i):
-            if e["kind"] == "enum" and e["label"] == "Ok" and derives(tr, e["node"], V, variants=None):
-                tgt = e["sw"].variants["Ok"]
-                region = g.reach([tgt], kinds=(N,), avoid_edges=[(e["bb"], tgt)], stop=lambda x: x == i)
-                ys = [x for x in region if g.term(x)["k"] == "yield" and i in g.reach([x], kinds=(N,), avoid_edges=[(e["bb"], tgt)])]
-        if ys is None:
-            ys = [src.poll_bb]     # no Ok edge of the received result dominates the return
+        ys = []
+        if not all(s_ for (_lf, s_) in per_leaf):
+            ys = [i]              # one origin of the returned response is not a received result
+        for (lf, s_) in per_leaf:
+            if not s_:
+                continue
+            V = await_node(hb, s_[0])
+            found = False
+            cands = dominating_edges(tr, hb, i) if len(per_leaf) == 1 else \
+                [{"kind": "enum", "label": "Ok", "bb": bb_, "sw": g.switch(bb_), "node": peel(tr.expand(tr.place(hb, g.switch(bb_).place, g.switch(bb_).defloc)))}
+                 for bb_ in range(g.n) if g.switch(bb_) is not None and g.switch(bb_).kind == "enum" and "Ok" in g.switch(bb_).variants and g.live(bb_)
+                 and i in g.reach([g.switch(bb_).variants["Ok"]], kinds=(N,))]
+            for e in cands:
+                if e["kind"] == "enum" and e["label"] == "Ok" and derives(tr, e["node"], V, variants=None):
+                    found = True
+                    tgt = e["sw"].variants["Ok"]
+                    region = g.reach([tgt], kinds=(N,), avoid_edges=[(e["bb"], tgt)], stop=lambda x: x == i)
+                    ys += [x for x in region if g.term(x)["k"] == "yield" and i in g.reach([x], kinds=(N,), avoid_edges=[(e["bb"], tgt)])]
+            if not found:
+                ys.append(s_[0].poll_bb)     # no Ok edge of the received result leads to the return
         rep.ob("C12.FIRST-SUCCESS", skey(hb, "return-ok#%d" % (nok - 1)), not ys, g.where(i, j),
                "a received success is returned as the call's response without suspending again" if not ys else
                "the function suspends (%s) between receiving a success and returning it" % g.where(ys[0]))
